@@ -124,6 +124,16 @@ Theorem http_server_chunked_exact : forall pieces lhex lext trs surplus start,
 Proof. exact server_chunked_exact. Qed.
 Print Assumptions http_server_chunked_exact.
 
+(* 10'. Segmentation independence of the server: whatever way a byte stream - valid, pipelined, hostile - is cut
+       into network reads, the requests framed (raw bytes and the body handed to the handler) and the closes issued are
+       those of the stream delivered in one piece, as long as the stream fits the connection's buffer cap
+       (MAX_BUFFER_SIZE; beyond it the server closes the connection, which depends on how much was already consumed). *)
+Theorem http_server_segmentation_independent : forall chunks,
+  lenN (concat chunks) <= MAX_BUFFER_SIZE ->
+  snd (run_server (mkS [] false) chunks) = snd (run_server (mkS [] false) [concat chunks]).
+Proof. exact server_segmentation. Qed.
+Print Assumptions http_server_segmentation_independent.
+
 (* 11. The witnesses of the repaired findings: each of these requests was framed by guesswork by the code as found;
        now each is answered with a close and nothing is handed on.  The chunked request with a trailer section is
        framed in full and the pipelined request behind it starts at its first byte. *)
@@ -195,4 +205,15 @@ Example client_pipeline_instance :
     [EvData (s2b "HTTP/1.1 100 Continue" ++ crlf ++ crlf ++ s2b "HTTP/1.1 200 OK" ++ crlf ++ s2b "Transfer-Encoding: chunked" ++ crlf);
      EvData (crlf ++ s2b "5" ++ crlf ++ s2b "hel"); EvData (s2b "lo" ++ crlf ++ s2b "0" ++ crlf ++ crlf ++ s2b "Z")]
   = FDone (mkResp 200 (s2b "1.1") (s2b "OK") [(te_name, s2b "chunked")] (s2b "hello")) true.
+Proof. vm_compute. reflexivity. Qed.
+
+(* a pipeline of a chunked request (extension, trailer) and a Content-Length request, cut inside the chunk-size line,
+   inside the trailer and inside the second request's header block *)
+Example server_segmentation_instance :
+  let r1 := req_with [s2b "Transfer-Encoding: chunked"]
+              (s2b "5;x=1" ++ crlf ++ s2b "hello" ++ crlf ++ s2b "0" ++ crlf ++ s2b "T: v" ++ crlf ++ crlf) in
+  let r2 := req_with [s2b "Content-Length: 3"] (s2b "abc") in
+  let st := r1 ++ r2 in
+  snd (run_server (mkS [] false) [firstn 50 st; firstn 20 (skipn 50 st); firstn 25 (skipn 70 st); skipn 95 st])
+  = [SRequest r1 (s2b "hello"); SRequest r2 (s2b "abc")].
 Proof. vm_compute. reflexivity. Qed.
